@@ -30,6 +30,7 @@ func GenSpec(t *rapid.T, defects []Defect) Spec {
 	s.Late = rapid.IntRange(0, 2).Draw(t, "late") == 0
 	s.TLSPeer = rapid.IntRange(0, 2).Draw(t, "tlsPeer") != 0 && (s.Defect.IsSignature() || rapid.Bool().Draw(t, "tlsPeerOther"))
 	s.DefectArg = rapid.IntRange(0, 400).Draw(t, "defectArg")
+	s.ForgeKind = rapid.IntRange(0, 3).Draw(t, "forgeKind")
 	s.Session = rapid.SampledFrom([]int{SessionNone, SessionNone, SessionV1, SessionV2}).Draw(t, "session")
 	s.SessionBindObj = rapid.Bool().Draw(t, "sessionBindObj")
 	s.Bearer = rapid.IntRange(0, 3).Draw(t, "bearer") == 0
